@@ -100,6 +100,8 @@ def build_expr(af, e, pool):
             else:
                 items.append((k, build_expr(af, sub, pool)))
         form = e["form"]
+        if form == "steps":                  # opt-in (C01): a construction history, see modelgen.Gen.coll_numeric_names
+            return build_steps(af, e, [v for _, v in items], pool)
         if e.get("raw"):                     # opt-in: a raw list / dict (wrapped by the library: from_object / Model kwargs)
             return [v for _, v in items] if form == "list" else {k: v for k, v in items}
         if form == "varargs":
@@ -121,6 +123,36 @@ def build_expr(af, e, pool):
                 c.append(v)
             return c
     raise ValueError(t)
+
+
+def build_steps(af, e, objs, pool):
+    """Collection built by the history e["steps"]; the component e["removed"] (item -1) is removed again at the end."""
+    doomed = build_expr(af, e["removed"], pool) if "removed" in e else None
+
+    def get(st):
+        return doomed if st["item"] < 0 else objs[st["item"]]
+    first = [st for st in e["steps"] if st["op"] == "init"]
+    if e["init"] == "kwargs":
+        c = af.Collection(**{st["key"]: get(st) for st in first})
+    elif e["init"] == "dict":
+        c = af.Collection({st["key"]: get(st) for st in first})
+    elif e["init"] == "list":
+        c = af.Collection([get(st) for st in first])
+    else:
+        c = af.Collection()
+    for st in e["steps"]:
+        op = st["op"]
+        if op == "append":
+            c.append(get(st))
+        elif op == "setint":
+            c[int(st["key"])] = get(st)
+        elif op == "setstr":
+            c[st["key"]] = get(st)
+        elif op == "attr":
+            setattr(c, st["key"], get(st))
+    if doomed is not None:
+        c.remove(doomed)
+    return c
 
 
 def abstract_model(af, obj, idmap):
